@@ -50,6 +50,10 @@ fn nt_c13(r: &RunOut) -> bool {
     crate::oracle::probe_c05(&ix) && (ix.fault("cancel_op") > 0 || ix.ops.iter().any(|o| o.brief == "Ready") || ix.fault("wr_stall") > 0)
 }
 
+fn nt_c07(r: &RunOut) -> bool {
+    crate::oracle::probe_c07(&Ix::new(r))
+}
+
 fn nt_c11(r: &RunOut) -> bool {
     crate::oracle::probe_c11(&Ix::new(r))
 }
@@ -103,6 +107,16 @@ pub fn spec(id: &str) -> Option<PropSpec> {
             thorough_runs: 2_000_000,
             rule: "one run = sends with automatic and caller-chosen ids acknowledged by a peer that is correct or injects one deviation (reordered id, wrong ack type, duplicate, unknown id, unsolicited); reference model = FIFO of outstanding exchanges seen on the wire; oracle: Ok only after a matching ack of the right type was sent, contents equal, ids of outstanding sends distinct and non-zero, deviation ends the connection, correct peer never does; distinct = distinct abstract history signature; non-trivial = a deviation was actually delivered, or two or more exchanges were outstanding together",
             nontrivial: nt_c06,
+            assumptions: base,
+        },
+        "C07" => PropSpec {
+            id: "C07",
+            level: "exploration",
+            families: vec![(Family::C07, 100)],
+            quick_runs: 30_000,
+            thorough_runs: 2_500_000,
+            rule: "one run = a base scenario (0..4 inbound publishes with gated handlers and payloads arriving in pieces, 0..3 sender tasks awaiting acks or parked on a window of 1..2, optional write back-pressure) and one termination cause drawn from: FIN / RST / write error at a step drawn uniformly over the run, undecodable bytes or a packet cut short followed by FIN, protocol violation (second CONNECT, unknown topic alias, duplicate id), failing publish/protocol handlers, keep-alive expiry on the simulated clock, local close / close_with_reason / force_close, peer DISCONNECT; control(Stop) gated in half of the runs and answering none / own DISCONNECT / error; every run ends with a closing FIN. Oracle at final quiescence: exactly one Stop once the connection's services exist, its class names a cause present in the history (or a documented consequence of one), the connection task completed, every started send / ready() resolved (Disconnected when it was pending across the end), no handler left waiting, a handler cancelled only after the Stop notification had been handled, a waiting payload reader observed an error, no panic; distinct = distinct abstract history signature; non-trivial = a handler invocation or a send was in flight when the connection ended",
+            nontrivial: nt_c07,
             assumptions: base,
         },
         "C08" => PropSpec {
@@ -171,4 +185,4 @@ pub fn spec(id: &str) -> Option<PropSpec> {
     })
 }
 
-pub const ALL: [&str; 10] = ["C03", "C04", "C05", "C06", "C08", "C11", "C12", "C13", "C14", "C16"];
+pub const ALL: [&str; 11] = ["C03", "C04", "C05", "C06", "C07", "C08", "C11", "C12", "C13", "C14", "C16"];
